@@ -33,7 +33,7 @@ StepDur(P, stp) == IF Act(P, stp.a).kind = "dur" THEN TV(stp.d) ELSE ZERO
 StepEnd(P, stp) == RAdd(TV(stp.t), StepDur(P, stp))
 PlanEnd(P, plan) ==
    LET ends == {StepEnd(P, plan[i]) : i \in DOMAIN plan} \cup {ZERO} IN
-   CHOOSE m \in ends : \A e \in ends : RLe(e, m)
+   IF \E e \in ends : IsU(e) THEN UNDEF ELSE CHOOSE m \in ends : \A e \in ends : RLe(e, m)
 
 \* events: [t, who, ef, env]   (who = step index, 0 for the problem's timed effects)
 StepEvents(P, i, stp, pend) ==
@@ -110,6 +110,7 @@ TimeVerdict(R, plan) ==
    IN IF \E i \in DOMAIN plan : RLt(TV(plan[i].t), ZERO)
             \/ (Act(P, plan[i].a).kind = "dur" /\ RLe(TV(plan[i].d), ZERO))
       THEN [v |-> "unspec", why |-> "nonpositive-duration-or-negative-start"]
+      ELSE IF IsU(pend) \/ \E e \in Ev : IsU(e.t) THEN [v |-> "unspec", why |-> "number-beyond-model-range"]
       ELSE IF \E e \in Ev : RLt(e.t, ZERO) THEN [v |-> "unspec", why |-> "effect-before-zero"]
       ELSE IF i3 = "?" THEN [v |-> "unspec", why |-> "init?"]
       ELSE IF i3 = "F" THEN [v |-> "INVALID", why |-> "init"]
